@@ -42,6 +42,7 @@ Step(e) ==
     \/ e.op = "encode" /\ e.ok  /\ Encode(e.c, e.x, e.b) /\ mech' = mech
     \/ e.op = "encode" /\ ~e.ok /\ EncodeRefused(e.c, e.x) /\ mech' = mech
     \/ e.op = "decode" /\ Decode(e.c, e.b, e.n, e.ok, e.y) /\ mech' = mech
+    \/ e.op = "roundtrips" /\ Roundtrips(e.c, e.items) /\ mech' = mech
     (* a panic inside train / encode is a refusal ("whenever encoding succeeds"): nothing was     *)
     (* produced, nothing changes.  A panic inside decode, a crash or a timeout has no action.     *)
     \/ e.op = "panic" /\ e.in \in {"train", "encode"} /\ UNCHANGED csvars /\ mech' = mech
